@@ -154,8 +154,9 @@ def val_kind(v):
 
 
 def sched_exprs(v):
-    """-> (starts, stops, restarts) expression lists for a structurally valid schedule value,
-    'panic-key' / 'invalid' otherwise (independent reading of the documented forms)."""
+    """-> (starts, stops, restarts) expression lists for a structurally valid schedule value, 'invalid' otherwise
+    (independent reading of the documented forms: string, list of strings, map with the keys start/stop/restart
+    whose values are a string or a list of strings)."""
     k = val_kind(v)
     if k == "n":
         return [], [], []
@@ -167,9 +168,8 @@ def sched_exprs(v):
         return [x["s"] for x in v["l"]], [], []
     if k == "m":
         res = {"start": [], "stop": [], "restart": []}
-        unknown = False
         for key, val in v["m"]:
-            if val_kind(key) != "s":
+            if val_kind(key) != "s" or key["s"] not in res:
                 return "invalid"
             vk = val_kind(val)
             if vk == "s":
@@ -180,13 +180,7 @@ def sched_exprs(v):
                 xs = [x["s"] for x in val["l"]]
             else:
                 xs = []
-            if key["s"] not in res:
-                if xs:
-                    unknown = True
-                continue
             res[key["s"]] += xs
-        if unknown:
-            return "panic-key"
         return res["start"], res["stop"], res["restart"]
     return "invalid"
 
@@ -196,35 +190,20 @@ def tz_no_space(e):
 
 
 def judge_content(c):
-    """-> dict(valid: bool|None, starts, stops, restarts (parsed specs), panic: None|'unknown-schedule-key'|'tz-no-space')
-    valid None = not judged (an expression outside the tame grammar)."""
+    """-> dict(valid: bool|None, specs (parsed start/stop/restart specs)); valid None = not judged (an expression
+    outside the tame grammar).  A zone prefix without a schedule and an unknown map key are plain invalid files
+    (they used to crash the loader: F13a, F13b, repaired in /repo)."""
     if "g" in c and c["g"]:
         if c["g"] in ("empty", "nosched"):
             return {"valid": True, "specs": ([], [], []), "panic": None}
         return {"valid": False, "specs": None, "panic": None}
     r = sched_exprs(c["v"])
-    allx = []
-
-    def walk(v):
-        k = val_kind(v)
-        if k == "s":
-            allx.append(v["s"])
-        elif k == "l":
-            for x in v["l"]:
-                walk(x)
-        elif k == "m":
-            for _, x in v["m"]:
-                walk(x)
-    walk(c["v"])
-    tz = any(tz_no_space(e) for e in allx)
-    if r == "panic-key":
-        return {"valid": False, "specs": None, "panic": "unknown-schedule-key"}
     if r == "invalid":
-        return {"valid": False, "specs": None, "panic": "tz-no-space" if tz else None}
-    if tz:
-        return {"valid": False, "specs": None, "panic": "tz-no-space"}
+        return {"valid": False, "specs": None, "panic": None}
     specs = []
     for xs in r:
+        if any(tz_no_space(e) for e in xs):
+            return {"valid": False, "specs": None, "panic": None}
         ps = [parse_expr(e) for e in xs]
         if any(p == "invalid" for p in ps):
             return {"valid": False, "specs": None, "panic": None}
